@@ -29,6 +29,23 @@ def known():
     return dv.load_known() + dv.load_known_part("store")
 
 
+# Binding self-test only: DV_STORE_HARNESS names a copy of the harness workspace whose path dependencies point to a
+# scratch worktree of /repo carrying a seeded mutation or a candidate fix (never /repo itself).
+_ALT = os.environ.get("DV_STORE_HARNESS")
+
+
+def build():
+    if not _ALT:
+        return dv.build_harness("dv-store")
+    rc, out, dt = dv.run(["cargo", "build", "--offline", "-p", "dv-store"], cwd=_ALT, timeout=3600, check=False)
+    if rc != 0:
+        raise dv.ToolError("harness build failed:\n" + out[-6000:])
+
+
+def binp():
+    return os.path.join(_ALT, "target", "debug", "dv-store") if _ALT else dv.harness_bin("dv-store")
+
+
 # ---------------------------------------------------------------------------------------------
 # TLC graph emission
 # ---------------------------------------------------------------------------------------------
@@ -126,7 +143,7 @@ def c19_judge(fail):
 
 def run_buflog(wd, gpath, T, extra):
     out = os.path.join(wd, "buflog-result.json")
-    cmd = [dv.harness_bin("dv-store"), "buflog", "--graph", gpath, "--max-idx", str(T["MaxIdx"]),
+    cmd = [binp(), "buflog", "--graph", gpath, "--max-idx", str(T["MaxIdx"]),
            "--max-term", str(T["MaxTerm"]), "--out", out] + extra
     dv.run(cmd, timeout=3000)
     with open(out) as f:
@@ -137,7 +154,7 @@ def check_c19(tier):
     t0 = time.time()
     T = C19_TIER[tier]
     wd = dv.workdir("store-C19")
-    dv.build_harness("dv-store")
+    build()
     gpath, ns, ne, st = c19_graph(wd, T)
     res = run_buflog(wd, gpath, T, ["--depth", str(T["depth"]), "--random", str(T["random"]), "--rlen", str(T["rlen"]),
                                     "--seed", str(dv.seed()), "--threads", str(THREADS), "--max-runs", str(T["max_runs"])])
@@ -210,7 +227,7 @@ def replay_c19(path):
         payload = json.load(f)
     T = payload["consts"]
     wd = dv.workdir("replay-C19")
-    dv.build_harness("dv-store")
+    build()
     gpath, ns, ne, st = c19_graph(wd, T)
     res = run_buflog(wd, gpath, T, ["--replay", path])
     if not res.get("found"):
@@ -367,7 +384,7 @@ def c20_judge(f):
 
 def run_logstore(wd, gpath, T, extra):
     out = os.path.join(wd, "logstore-result.json")
-    cmd = [dv.harness_bin("dv-store"), "logstore", "--graph", gpath, "--max-idx", str(T["MaxIdx"]),
+    cmd = [binp(), "logstore", "--graph", gpath, "--max-idx", str(T["MaxIdx"]),
            "--scratch", os.path.join(wd, "scratch"), "--out", out] + extra
     dv.run(cmd, timeout=3000)
     with open(out) as f:
@@ -386,7 +403,7 @@ def check_c20(tier):
     t0 = time.time()
     T = C20_TIER[tier]
     wd = dv.workdir("store-C20")
-    dv.build_harness("dv-store")
+    build()
     gpath, ns, ne, st = c20_graph(wd, T)
     res = run_logstore(wd, gpath, T, ["--walks", str(T["walks"]), "--len", str(T["wlen"]), "--dfs-depth", str(T["dfs_depth"]),
                                       "--reopen-pct", str(T["reopen_pct"]), "--seed", str(dv.seed()),
@@ -458,7 +475,7 @@ def replay_c20(path):
         payload = json.load(f)
     T = payload["consts"]
     wd = dv.workdir("replay-C20")
-    dv.build_harness("dv-store")
+    build()
     gpath, ns, ne, st = c20_graph(wd, T)
     res = run_logstore(wd, gpath, T, ["--replay", path])
     if not res.get("found"):
@@ -497,7 +514,7 @@ def _load_images(wd, engine, dirs):
     out = os.path.join(wd, "load-%s.ndjson" % engine)
     with open(lst, "w") as f:
         f.write("\n".join(dirs) + "\n")
-    dv.run([dv.harness_bin("dv-store"), "metastore", "load", "--engine", engine, "--list", lst, "--out", out], timeout=1200)
+    dv.run([binp(), "metastore", "load", "--engine", engine, "--list", lst, "--out", out], timeout=1200)
     res = {}
     with open(out) as f:
         for line in f:
@@ -521,7 +538,7 @@ def c21_file(wd, values):
     d = os.path.join(wd, "file", "meta")
     os.makedirs(d)
     tr = os.path.join(wd, "file-strace.txt")
-    cmd = [dv.harness_bin("dv-store"), "metastore", "run", "--engine", "file", "--dir", d, "--values", json.dumps(values)]
+    cmd = [binp(), "metastore", "run", "--engine", "file", "--dir", d, "--values", json.dumps(values)]
     dv.run(store_fs.strace_cmd(tr, cmd), timeout=600)
     events = store_fs.parse(tr, d)
     marks = [e for e in events if e["e"] == "mark"]
@@ -599,7 +616,7 @@ def c21_rocksdb(wd, values):
     copies = os.path.join(wd, "rocksdb", "copies")
     os.makedirs(d)
     os.makedirs(copies)
-    dv.run([dv.harness_bin("dv-store"), "metastore", "run", "--engine", "rocksdb", "--dir", d, "--values",
+    dv.run([binp(), "metastore", "run", "--engine", "rocksdb", "--dir", d, "--values",
             json.dumps(values), "--copy-after-each", copies], timeout=600)
     dirs = [os.path.join(copies, "after%d" % (k + 1)) for k in range(len(values))] + [d]
     loaded = _load_images(wd, "rocksdb", dirs)
@@ -620,7 +637,7 @@ def check_c21(tier):
     t0 = time.time()
     values = C21_VALUES[tier]
     wd = dv.workdir("store-C21")
-    dv.build_harness("dv-store")
+    build()
     # design level: the repaired procedure satisfies the property, under both crash kinds
     mc = c21_mc(wd, [], "meta-repaired")
     if not mc["ok"]:
@@ -692,7 +709,7 @@ def replay_c21(path):
         payload = json.load(f)
     values = payload["values"]
     wd = dv.workdir("replay-C21")
-    dv.build_harness("dv-store")
+    build()
     viol = (c21_file(wd, values)["viol"] if payload["engine_under_test"] == "file" else c21_rocksdb(wd, values)["viol"])
     for v in viol:
         print("reproduced: %s/%s %s" % (v["m"], v["cause"], json.dumps(v["image"])[:400]))
@@ -702,14 +719,207 @@ def replay_c21(path):
 
 
 # ---------------------------------------------------------------------------------------------
+# C18
+# ---------------------------------------------------------------------------------------------
+C18_AS_IMPL = ["DurableIndexNeverLowered", "PendingMaxNotLowered"]
+C18_TIER = {
+    "quick": dict(MaxIdx=4, MaxTerm=3, MaxOps=4, file_sample=0, rocksdb_sample=80),
+    "thorough": dict(MaxIdx=4, MaxTerm=3, MaxOps=5, file_sample=0, rocksdb_sample=1200),
+}
+C18_INV = ["C18_GapFree", "C18_DurableKept", "C18_FlushKept", "C18_NoResurrection"]
+
+
+def c18_consts(T, dev):
+    return {"MaxIdx": T["MaxIdx"], "MaxTerm": T["MaxTerm"], "MaxOps": T["MaxOps"], "Dev": dv.tla_set(dev)}
+
+
+def run_crashlog(wd, gpath, T, engine, extra=()):
+    out = os.path.join(wd, "crashlog-%s.json" % engine)
+    cmd = [binp(), "crashlog", "--graph", gpath, "--max-idx", str(T["MaxIdx"]), "--engine", engine,
+           "--threads", str(THREADS), "--seed", str(dv.seed()), "--scratch", os.path.join(wd, "scratch"), "--out", out]
+    dv.run(cmd + list(extra), timeout=3000)
+    with open(out) as f:
+        return json.load(f)
+
+
+def _c18_op(o):
+    es = lambda o: ",".join("%d:%d" % (e["i"], e["t"]) for e in o["es"])
+    k = o["k"]
+    if k == "append":
+        return "append[%s]" % es(o)
+    if k == "conflict":
+        return "conflict_append(prev=%d/%d,[%s])" % (o["p"], o["pt"], es(o))
+    if k == "resetappend":
+        return "append_from_scratch(prev=0,[%s])" % es(o)
+    if k == "purge":
+        return "purge(%d:%d)" % (o["i"], o["t"])
+    return "flush()"
+
+
+def c18_judge(f):
+    """(monitor, cause) of one violation, computed from the operation sequence and the durable indexes the real
+    log reported: the violating index lies at or above a conflict truncation that cut at or below the durable
+    index reported before it."""
+    mon = "%s(%s)" % (f["monitor"], f["crash"] or "-")
+    path, durs = f["path"], f["durs"]
+    idx = None
+    m = re.search(r"index=(\d+)", f["detail"])
+    if m:
+        idx = int(m.group(1))
+    else:
+        m = re.search(r"recovered=\[([0-9, ]*)\]", f["detail"])
+        if m:
+            rec = [int(x) for x in m.group(1).split(",")]
+            have = [i for i, v in enumerate(rec) if v]
+            gaps = [i for i in range(min(have), max(have)) if not rec[i]] if have else []
+            idx = gaps[0] if gaps else None
+    if idx is None:
+        return mon, "other"
+    for j, o in enumerate(path):
+        if o["k"] == "conflict":
+            d = o["p"] + 1
+            before = durs[j - 1] if 0 < j <= len(durs) else 0
+            if d <= before and idx >= d:
+                return mon, "conflict-truncation-at-or-below-durable-index"
+    return mon, "other"
+
+
+def check_c18(tier):
+    t0 = time.time()
+    T = C18_TIER[tier]
+    wd = dv.workdir("store-C18")
+    build()
+    # design level: the repaired IO task (both deviations off) satisfies all four invariants
+    cfg = os.path.join(wd, "buflogio-repaired.cfg")
+    c = c18_consts(T, [])
+    c["Emit"] = "FALSE"
+    dv.write_cfg(cfg, constants=c, invariants=["TypeOK"] + C18_INV)
+    mc = dv.tlc_mc("BufLogIO", cfg, wd, workers=6, timeout=1500)
+    if not mc["ok"]:
+        raise dv.ToolError("BufLogIO.tla with Dev = {} violates %s:\n%s" % (mc["violated"], mc["output_tail"]))
+    # the as-implemented model: what TLC predicts for the current code
+    cfg2 = os.path.join(wd, "buflogio-asimpl.cfg")
+    c2 = c18_consts(T, C18_AS_IMPL)
+    c2["Emit"] = "FALSE"
+    dv.write_cfg(cfg2, constants=c2, invariants=["TypeOK"] + C18_INV)
+    pred = dv.tlc_mc("BufLogIO", cfg2, wd, workers=6, timeout=1500)
+    # graph of the as-implemented model -> real code
+    gpath, ns, ne, st = tlc_graph("BufLogIO", wd, c18_consts(T, C18_AS_IMPL), ["TypeOK"], name="buflogio-graph")
+    gated = run_crashlog(wd, gpath, T, "gated")
+    filer = run_crashlog(wd, gpath, T, "file", ["--sample", str(T["file_sample"])])
+    rocks = run_crashlog(wd, gpath, T, "rocksdb", ["--sample", str(T["rocksdb_sample"])])
+    allf = gated["findings"] + filer["findings"] + rocks["findings"]
+    bad = [f for f in allf if f["kind"] == "oracle-disagreement"]
+    if bad:
+        raise dv.ToolError("monitors of the harness and TLC's verdict disagree on a conforming state: %s" % json.dumps(bad[0])[:1500])
+    div = {}
+    for f in allf:
+        if f["kind"] == "divergence":
+            k = "%s/%s" % (f["engine"], f["monitor"])
+            div[k] = div.get(k, 0) + 1
+    viol = []
+    for f in allf:
+        if f["kind"] == "violation":
+            m, cse = c18_judge(f)
+            viol.append({"p": "C18", "m": m, "cause": cse, "fail": f})
+    known_hits, new = dv.classify("C18", viol, known=known())
+    replay_paths = []
+    seen = set()
+    for v in sorted(new, key=lambda v: len(v["fail"]["path"])):
+        key = (v["m"], v["cause"], v["fail"]["engine"])
+        if key in seen:
+            continue
+        seen.add(key)
+        f = v["fail"]
+        replay_paths.append(dv.save_replay("C18", {"engine": "store", "property": "C18", "consts": T,
+                                                   "engine_under_test": f["engine"], "path": f["path"],
+                                                   "io_step": f["io_step"], "crash": f["crash"], "monitor": v["m"],
+                                                   "cause": v["cause"], "detail": f["detail"]}))
+        if len(replay_paths) >= 5:
+            break
+    causes, first = {}, {}
+    for v in sorted(viol, key=lambda v: (len(v["fail"]["path"]), v["fail"]["io_step"])):
+        k = "%s/%s/%s" % (v["fail"]["engine"], v["m"], v["cause"])
+        causes[k] = causes.get(k, 0) + 1
+        if k not in first:
+            f = v["fail"]
+            first[k] = {"sequence": [_c18_op(o) for o in f["path"]], "durable_index_after_each_op": f["durs"],
+                        "crash": f["crash"], "io_calls_of_last_op_executed": f["io_step"], "in_flight": f["inflight"],
+                        "detail": f["detail"]}
+    npaths = gated["paths"] + filer["paths"] + rocks["paths"]
+    cov = {
+        "states": mc["distinct"] + st["distinct"], "transitions": mc["generated"] + st["generated"],
+        "traces_validated_against_impl": npaths,
+        "evaluations": gated["crash_checks"] + filer["crash_checks"] + rocks["crash_checks"],
+        "distinct_nontrivial": gated["nontrivial"],
+        "rule": "cases = every maximal operation sequence of the TLC graph of BufLogIO.tla (append / conflict append / purge / "
+                "append from scratch / flush, bounds below) executed on the real BufferedRaftLog: (gated) over an in-memory "
+                "LogStore whose every call by the IO task stops at a gate, with a process-crash image (written layer) and a "
+                "power-loss image (synced layer) recovered by a fresh BufferedRaftLog at every state between two LogStore "
+                "calls and at every operation boundary; (file / rocksdb) over the real engines with a copy of the data "
+                "directory reopened at every operation boundary; evaluations = crash images recovered and judged; "
+                "distinct_nontrivial = distinct gated sequences containing a conflict truncation, a purge or a reset",
+        "samples": [[_c18_op(o) for o in p] for p in gated["samples"]] or [{"note": "none"}],
+        "bounds": {k: T[k] for k in ("MaxIdx", "MaxTerm", "MaxOps")},
+        "model_checking": {"repaired_design": {"Dev": [], "distinct_states": mc["distinct"], "generated": mc["generated"],
+                                               "invariants": C18_INV, "ok": True, "secs": mc["secs"]},
+                           "as_implemented": {"Dev": C18_AS_IMPL, "violated": pred["violated"]}},
+        "graph_states": ns, "graph_edges": ne,
+        "gated": {k: gated[k] for k in ("total_paths", "paths", "states_visited", "crash_checks", "gate_calls")},
+        "file": {k: filer[k] for k in ("total_paths", "paths", "crash_checks")},
+        "rocksdb": {k: rocks[k] for k in ("total_paths", "paths", "crash_checks")},
+        "conformance_divergences": div,
+        "violations_by_engine_monitor_cause": causes, "shortest_by_engine_monitor_cause": first,
+        "known_findings_hit": sorted({"%s/%s/%s" % (k["property"], k["monitor"], k["cause"]) for k, _ in known_hits}),
+        "exhaustive": T["file_sample"] == 0,
+    }
+    level = "model_checking" if not div else "exploration"
+    dv.write_evidence("C18", tier, level, cov,
+                      ["one operation outstanding at a time: the IO task runs to quiescence before the next operation starts "
+                       "(interleavings of concurrent operations with the IO task are not explored); idle timer disabled",
+                       "crash points = between LogStore calls (gated store) / operation boundaries (File, RocksDB: process crash "
+                       "by directory copy; no power-loss image, no crash point inside a store call)",
+                       "while an operation is in flight the requirement is the one reported before it, restricted to the "
+                       "entries it does not touch; an append from scratch (prev_log_index = 0) discards the log on purpose",
+                       "monitors are evaluated on observed values and cross-checked with TLC's verdict on every conforming state"],
+                      time.time() - t0, len(new))
+    rc = dv.finish("C18", known_hits, new, replay_paths)
+    shutil.rmtree(wd, ignore_errors=True)
+    return rc
+
+
+def replay_c18(path):
+    with open(path) as f:
+        payload = json.load(f)
+    T = payload["consts"]
+    wd = dv.workdir("replay-C18")
+    build()
+    gpath, ns, ne, st = tlc_graph("BufLogIO", wd, c18_consts(T, C18_AS_IMPL), ["TypeOK"], name="buflogio-graph")
+    eng = {"gated-memory": "gated"}.get(payload["engine_under_test"], payload["engine_under_test"])
+    res = run_crashlog(wd, gpath, T, eng, ["--replay", path])
+    if not res.get("found"):
+        raise dv.ToolError("the recorded sequence is not a path of the specification graph")
+    viol = []
+    for f in res["findings"]:
+        if f["kind"] == "violation":
+            m, cse = c18_judge(f)
+            viol.append({"p": "C18", "m": m, "cause": cse, "fail": f})
+            print("reproduced: %s/%s [%s] after %s (io calls executed %s): %s" % (m, cse, f["engine"],
+                  " ; ".join(_c18_op(o) for o in f["path"]), f["io_step"], f["detail"]))
+    known_hits, new = dv.classify("C18", viol, known=known())
+    shutil.rmtree(wd, ignore_errors=True)
+    return dv.finish("C18", known_hits, new, [path] if new else [])
+
+
+# ---------------------------------------------------------------------------------------------
 # registry
 # ---------------------------------------------------------------------------------------------
 _TECH = "TLA+/TLC model-based testing: TLC enumerates the reference specification's state graph and is the oracle; "\
         "dv-store replays its paths into the real component and compares every observation"
 
-CHECKS = {"C19": (check_c19, replay_c19), "C20": (check_c20, replay_c20), "C21": (check_c21, replay_c21)}
+CHECKS = {"C19": (check_c19, replay_c19), "C20": (check_c20, replay_c20), "C21": (check_c21, replay_c21), "C18": (check_c18, replay_c18)}
 
-PROPS.update({"C19": {"spec": "BufLog.tla"}, "C20": {"spec": "LogStore.tla"}, "C21": {"spec": "MetaStore.tla"}})
+PROPS.update({"C19": {"spec": "BufLog.tla"}, "C20": {"spec": "LogStore.tla"}, "C21": {"spec": "MetaStore.tla"}, "C18": {"spec": "BufLogIO.tla"}})
 MANIFEST_INFO.update({
     "C19": dict(technique=_TECH, category="model_checking",
                 text="buffered log == plain log: TLC emits the complete state graph of the plain-log reference "
@@ -742,6 +952,19 @@ MANIFEST_INFO.update({
                 note="trusted: TLC, FsModel.tla (what survives a process crash / power loss), strace as observer of the "
                      "write path; RocksDB: only call-boundary process-crash images (no crash point inside a save, no "
                      "power-loss image); value sequence as listed in the evidence file",
+                ref="design_parts/store.md"),
+    "C18": dict(technique=_TECH, category="model_checking",
+                text="durable, gap-free prefix after a crash: BufLogIO.tla models the in-memory log, the IO task at "
+                     "LogStore-call granularity and a store with written / synced layers; TLC checks that the repaired IO "
+                     "task satisfies GapFree / DurableKept / FlushKept / NoResurrection and emits the state graph of the "
+                     "as-implemented model; dv-store executes every operation sequence of that graph on the real "
+                     "BufferedRaftLog over a gated in-memory LogStore (crash images of both kinds recovered at every "
+                     "point between two LogStore calls) and over the real File and RocksDB engines (directory copy at "
+                     "operation boundaries), checking conformance of every IO call, durable_index and recovered log and "
+                     "judging the property on the observed values",
+                note="trusted: TLC, BufLogIO.tla, the gated in-memory store as model of page cache vs stable storage; one "
+                     "operation outstanding at a time (no concurrent-operation interleavings); File/RocksDB only process "
+                     "crash at operation boundaries; bounds in the evidence file",
                 ref="design_parts/store.md"),
 })
 
